@@ -13,7 +13,8 @@ open VelaVerif.Arena
 theorem conflicts_sound (p : Plan) (h : conflicts p = []) :
     ∀ a ta b tb, (a, ta) ∈ planned p → (b, tb) ∈ planned p → a < b →
       bytesOverlap ta tb = true → liveOverlap p a b = true →
-      handoverAllowed p a b ta tb = true ∨ handoverAllowed p b a tb ta = true := by
+      handoverAllowed p a b ta tb = true ∨ handoverAllowed p b a tb ta = true ∨
+      aliasAllowed p a b ta tb = true ∨ aliasAllowed p b a tb ta = true := by
   intro a ta b tb ha hb hlt hbo hlo
   unfold conflicts at h
   simp only [List.flatMap_eq_nil_iff] at h
@@ -24,8 +25,44 @@ theorem conflicts_sound (p : Plan) (h : conflicts p = []) :
   | true => exact Or.inl rfl
   | false =>
     cases h4 : handoverAllowed p b a tb ta with
-    | true => exact Or.inr rfl
-    | false => simp [hlt, hbo, hlo, h3, h4] at h2
+    | true => exact Or.inr (Or.inl rfl)
+    | false =>
+      cases h5 : aliasAllowed p a b ta tb with
+      | true => exact Or.inr (Or.inr (Or.inl rfl))
+      | false =>
+        cases h6 : aliasAllowed p b a tb ta with
+        | true => exact Or.inr (Or.inr (Or.inr rfl))
+        | false => simp [hlt, hbo, hlo, h3, h4, h5, h6] at h2
+
+/-- what the alias exemption means: the two tensors are exactly the same bytes, `a` is an input and `b` an
+    output of one Ethos-U operator, and no write of that operator's decoded stream touches a byte of `b` -/
+theorem aliasAllowed_spec (p : Plan) (a b : Nat) (ta tb : ATensor) (h : aliasAllowed p a b ta tb = true) :
+    ta.offset = tb.offset ∧ ta.size = tb.size ∧
+    ∃ o ∈ p.ops, o.ethosu = true ∧ a ∈ o.inputs ∧ b ∈ o.outputs ∧ writtenBy p o tb = false := by
+  unfold aliasAllowed at h
+  simp only [Bool.and_eq_true, beq_iff_eq, List.any_eq_true, Bool.not_eq_true', List.contains_iff_mem] at h
+  obtain ⟨⟨h1, h2⟩, o, ho, ⟨⟨⟨h3, h4⟩, h5⟩, h6⟩⟩ := h
+  exact ⟨h1, h2, o, ho, h3, h4, h5, h6⟩
+
+/-- an output counts as unwritten only if the stream was supplied and none of its writes, mapped to arena
+    bytes, intersects the tensor -/
+theorem writtenBy_false_spec (p : Plan) (o : AOp) (t : ATensor) (h : writtenBy p o t = false) :
+    ∃ ws off, o.writes = some ws ∧ t.offset = some off ∧
+      ∀ w ∈ ws, ∀ lo hi, arenaRange p w = some (lo, hi) → ¬ (lo < off + t.size ∧ off < hi) := by
+  unfold writtenBy at h
+  cases hw : o.writes with
+  | none => rw [hw] at h; cases h
+  | some ws =>
+    cases ho : t.offset with
+    | none => rw [hw, ho] at h; cases h
+    | some off =>
+      rw [hw, ho] at h
+      refine ⟨ws, off, rfl, rfl, ?_⟩
+      intro w hwm lo hi har hc
+      simp only [List.any_eq_false] at h
+      have hx := h w hwm
+      rw [har] at hx
+      simp [hc.1, hc.2] at hx
 
 /-- every planned tensor ends at or below the required extent -/
 theorem required_covers (p : Plan) :
@@ -61,9 +98,22 @@ theorem misaligned_sound (p : Plan) (h : misaligned p = []) (hal : 0 < p.align) 
 -- non-vacuity: the plan measured in DESIGN.md (input and output of one Ethos-U operator share offset 0)
 def demo : Plan :=
   { tensors := [⟨2048, some 0, false⟩, ⟨100, none, false⟩, ⟨8192, some 0, false⟩, ⟨4096, some 0, false⟩, ⟨4096, some 4096, false⟩],
-    ops := [⟨true, 32, [1, 2, 0], [3]⟩, ⟨false, 32, [3], [4]⟩], inputs := [0], outputs := [4], scratch := some 2, fast := none, align := 16 }
+    ops := [⟨true, 32, [1, 2, 0], [3], none⟩, ⟨false, 32, [3], [4], none⟩], inputs := [0], outputs := [4], scratch := some 2, fast := none, align := 16 }
 example : conflicts demo = [] ∧ misaligned demo = [] ∧ scratchProblems demo = [] ∧ requiredExtent demo = 8192 := by decide
 /-- a CPU operator whose input and output overlap is reported -/
 example : conflicts { demo with tensors := [⟨2048, some 0, false⟩, ⟨100, none, false⟩, ⟨8192, some 0, false⟩, ⟨4096, some 0, false⟩, ⟨4096, some 2048, false⟩] } = [(3, 4)] := by decide
+
+/-- the NOP case measured on the unchanged tree (MEAN over a 1x1 map: no operation emitted, input 3 and
+    output 4 are the same 4 bytes and both graph outputs): accepted only because the stream writes nothing
+    there; with a write into those bytes, or without stream information, it is a conflict -/
+def nopDemo (w : Option (List (Nat × Nat × Nat))) : Plan :=
+  { tensors := [⟨112, some 0, false⟩, ⟨100, none, false⟩, ⟨576, some 0, false⟩, ⟨4, some 16, false⟩, ⟨4, some 16, false⟩],
+    ops := [⟨true, 32, [1, 2, 0], [3], some [(1, 16, 20)]⟩, ⟨true, 32, [1, 2, 3], [4], w⟩], inputs := [0], outputs := [3, 4],
+    scratch := some 2, fast := none, align := 16 }
+example : conflicts (nopDemo (some [])) = [] ∧ undefinedOutputs (nopDemo (some [])) = [] := by decide
+example : conflicts (nopDemo (some [(1, 18, 19)])) = [(3, 4)] := by decide
+example : conflicts (nopDemo none) = [(3, 4)] := by decide
+example : (undefinedOutputs { nopDemo (some []) with tensors :=
+    [⟨112, some 0, false⟩, ⟨100, none, false⟩, ⟨576, some 0, false⟩, ⟨4, some 16, false⟩, ⟨4, some 32, false⟩] }).length = 1 := by decide
 
 end VelaVerif.Props.C12
